@@ -1188,6 +1188,8 @@ class Interp:
                 conv = getattr(v, "conversion", -1)
                 if (spec is not None or conv != -1) and isinstance(x_, Const):
                     try:
+                        if isinstance(spec, ast.Constant):  # a folded format spec
+                            spec = ast.JoinedStr(values=[spec])
                         sp_ = "".join(str(c.value) for c in spec.values) if spec is not None and all(isinstance(c, ast.Constant) for c in spec.values) else (None if spec is not None else "")
                         if sp_ is not None:
                             val_ = x_.value
@@ -1915,6 +1917,8 @@ class Interp:
             if name in ("str",) and args:
                 if isinstance(args[0], (StrV, Tmpl)) or (isinstance(args[0], Const) and isinstance(args[0].value, str)):
                     return args[0]
+                if isinstance(args[0], Const) and isinstance(args[0].value, (int, float)) and not isinstance(args[0].value, bool):
+                    return Const(str(args[0].value))
                 l = self.str_lits(args[0])
                 sv = StrV(l, "str()")
                 sv.str_of = args[0]  # type: ignore[attr-defined]
